@@ -109,8 +109,8 @@ def run_impl(case):
     from pywhy_graphs.algorithms import (all_semi_directed_paths, is_semi_directed_path, possible_ancestors,
                                          possible_descendants)
     P, lab, inv = gr.to_pag(case["g"], case)
-    absent = len(case["g"]["V"])
-    lab2 = lambda v: lab(v) if v < absent else ("absent", v)  # noqa: E731
+    present = set(case["g"]["V"])
+    lab2 = lambda v: lab(v) if v in present else ("absent", v)  # noqa: E731
     before = gr.snapshot(P)
     paths = []
     for s, T, c, asset in case["qs"]:
